@@ -120,6 +120,12 @@ def single_lattice(rng, tier):
                     lower=dict(model='6node', vf_coolant=0.3),
                     upper=dict(model='6node', vf_coolant=0.35))
     one('multi-6node', t, gap_model='flow')
+    t = add_regions(bundle_type(2), L,
+                    lower=dict(model='6node', vf_coolant=0.3,
+                               convection_factor=0.6),
+                    upper=dict(model='simple', vf_coolant=0.35,
+                               convection_factor=0.5))
+    one('multi-convfactor', t, gap_model='flow')
     one('lowfi-simple', bundle_type(3, use_low_fidelity_model=True,
                                     low_fidelity_model='simple'),
         gap_model='flow')
